@@ -10,6 +10,7 @@ import (
 	"fmt"
 	"os"
 	"strconv"
+	"strings"
 )
 
 type prop struct {
@@ -50,12 +51,27 @@ func main() {
 		}
 		w := NewWriter(os.Args[4])
 		n := 0
+		skipped := 0
 		ReadNDJSON(os.Args[3], func(vec J) {
 			n++
-			p.exec(vec, w)
+			if hangs >= maxHangs {
+				skipped++
+				return
+			}
+			ex := p.exec
+			if k, ok := vec["k"].(string); ok && strings.HasSuffix(k, "_long") {
+				ex = execLong // long-line vectors (spec/LongGen.tla) are shared by several properties
+			}
+			guardedExec(ex, vec, w)
 		})
 		w.Close()
-		fmt.Printf("executed %d vectors, wrote %d trace lines\n", n, w.n)
+		fmt.Printf("executed %d vectors, wrote %d trace lines\n", n-skipped, w.n)
+		if skipped > 0 {
+			fmt.Printf("TRUNCATED: %d vectors not executed after %d calls did not return\n", skipped, hangs)
+		}
+		if hangs > 0 {
+			os.Exit(0) // abandoned goroutines may still be spinning
+		}
 	default:
 		if sub, ok := subcommands[os.Args[1]]; ok {
 			sub(os.Args[2:])
